@@ -81,7 +81,7 @@ class BoundGen:
         """absent | () | (P) | (..) | (P, ..) | (T) | (Vec<T>, P, ..)"""
         if self.r.random() < self.p_absent:
             return None
-        k = self.r.randrange(6)
+        k = self.r.randrange(8)
         self.marker += 1
         p = 'P%d' % self.marker
         pred_s = sx.b_pred(sx.wty(T, [sx.tb_trait([p])]))
@@ -96,6 +96,10 @@ class BoundGen:
             return Level([pred_s, sx.B_DOTS], [], [pred_f], True, 'pred+dots')
         if k == 4:
             return Level([sx.b_ty(T)], ['T'], [], False, 'type')
+        if k == 6:      # `..` may stand anywhere in the list
+            return Level([sx.B_DOTS, pred_s], [], [pred_f], True, 'dots+pred')
+        if k == 7:
+            return Level([sx.b_ty(T), sx.B_DOTS, pred_s], ['T'], [pred_f], True, 'type+dots+pred')
         return Level([sx.b_ty(sx.tgen('Vec', T)), pred_s, sx.B_DOTS], ['Vec < T >'], [pred_f], True, 'type+pred+dots')
 
     @staticmethod
